@@ -3,6 +3,6 @@ from .core import ob, prop
 
 PG = dict(unit="putget_u.c", file="mfhdf/src/putget.c", objbits=10)
 ob("NCcoordck", "C03", entry="h_NCcoordck", enforce="H4_NCcoordck", mode="proved-finite",
-   replace=["hdf_get_vp_aid"], loops=True, nloops=2, loopcls="P", unwind=34, cex_unwind=34,
+   replace=["hdf_get_vp_aid"], loops=True, nloops=3, loopcls="P", unwind=34, cex_unwind=34, defines=["MAXR=4","NOMUL","FIXSZ=4"],
    trusted=["hdf_get_vp_aid", "Hseek", "Hwrite", "DFKconvert", "HDmemfill", "NC_arrayfill", "NC_findattr", "strstr"],
    **PG)
